@@ -24,6 +24,8 @@ def regenerate(module, trace):
     if module in ("JPack",):
         calls = [dict(pcall(r["alg"], r.get("fmt", "list"), extra=(r.get("bcout", "skip") != "skip")), allot=bool(r.get("ots"))) for r in trace["res"]]
         return drive.run_pack_group({"vals": trace["vals"], "C": trace["C"], "den": trace.get("den", 1), "mul": trace.get("mul", 1), "orc": trace.get("orc", 1), "calls": calls})
+    if module == "JScan":
+        return drive.run_scan({"vals": trace["vals"], "Cs": [e["C"] for e in trace["events"]], "alg": trace["alg"], "fmt": trace["fmt"], "ot": trace["ot"]})
     if module == "JBinner":
         ops = [{k: o[k] for k in ("op", "a", "b", "i", "j", "n", "it")} for o in trace["ops"]]
         return drive.run_binner_hist({"ops": ops, "mgr": trace["mgr"], "ns": trace.get("ns", 3)})
@@ -43,7 +45,7 @@ def regenerate(module, trace):
     if module == "JIlp":
         st = {x: trace[x] for x in ("vals", "k", "o", "kp", "copies", "cons", "c")}
         st["w"] = trace["w"] if trace.get("wgiven") else None
-        st["copies_scalar"] = False
+        st["copies_scalar"] = bool(trace.get("cps"))
         st["inject"] = trace.get("inject", "")
         st["fmt"] = trace.get("fmt", "dict")
         return drive.run_ilp(st)
